@@ -22,8 +22,8 @@ End == /\ IsEvent("end") /\ cur # Idle
           THEN /\ Ev.res = "ok"                                     \* fault-free run succeeds (sanity of the driver)
                /\ (cur.api = "signimage" => Ev.sigdelta = 1)
           ELSE /\ \/ Ev.res = "error" \/ (cur.api = "hashimage" /\ Ev.res = "nil")               \* never success, never a wrong value
-                  \/ (cur.kind = "eof" /\ Ev.res = "ok")      \* a short count with io.EOF may be a legitimate end of file: then the result must be the correct one (the harness reports "ok" only after comparing it with the fault-free result)
-               /\ (~(cur.kind = "eof" /\ Ev.res = "ok") => \A i \in (fpos + 1)..Len(deps) : deps[i] \in Cleanup)   \* nothing but cleanup after the fault
+                  \/ (cur.kind \in {"eof", "partial"} /\ Ev.res = "ok")      \* a short count with io.EOF may be a legitimate end of file: then the result must be the correct one (the harness reports "ok" only after comparing it with the fault-free result)
+               /\ (~(cur.kind \in {"eof", "partial"} /\ Ev.res = "ok") => \A i \in (fpos + 1)..Len(deps) : deps[i] \in Cleanup)   \* nothing but cleanup after the fault
                /\ (deps[fpos] = "signer.Sign" => ~(\E i \in 1..Len(deps) : deps[i] \in Mutating))  \* failed signing writes nothing
                /\ (cur.api = "signimage" /\ Ev.res # "ok" => Ev.sigdelta = 0 /\ Ev.bytes_same)   \* image object without a new signature
                /\ Ev.value_returned = FALSE
